@@ -7,7 +7,7 @@ BOUNDS = {
     "quick": "1-level: destination 0..2 stored elements (tensor-owned), source 0..2, every coordinate/value symbolic, loop body = symbolic selector per "
              "offered reference in {leave, <<= w, += w} with symbolic w (w = 0 is 'set back to the default'); 2-level nested populate on destination "
              "[], [1], [1,1] x source [1], [1,1], [2]; source rank declared 'U' over an active range of span <= 3; the same populate object traversed twice (dry pass, then writing pass); both source ranks 'U' and source fibers that store nothing; pinned-destination counterparts of the slow nested obligations",
-    "thorough": "1-level up to 3x3; 2-level destination [2,1] and source [2,1]; 3-level nested populate [[1]] x [[1]]",
+    "thorough": "1-level up to 3x2 (and 0-1 x 3); 2-level destination [2,1], source up to [1,1] / [2]; 3-level nested populate [[1]] x [[1]]",
 }
 OUTSIDE = "bodies that mutate z other than through the offered reference; start_pos other than None; floats"
 ASSUMPTIONS = ["A1 integers only", "loop bodies are modelled as leave / assign / accumulate per offered reference (w symbolic, may be the default)"]
@@ -359,6 +359,8 @@ def obligations(tier):
     obs.append(Ob("pop_u2/UU/[]", "pop_u2", dict(tree=[], S=2, fmts="UU"), [], []))
     for nz in range(N + 1):
         for na in range(N + 1):
+            if not q and na == 3 and nz >= 2:
+                continue       # 3 offered references on a destination of 2-3 elements: 27 selector shards of 1000+ paths each, beyond the thorough time budget
             if na >= 2 and nz >= 2:
                 for sel in _sels(na):
                     obs.append(_mk1(nz, na, sel))
@@ -368,7 +370,7 @@ def obligations(tier):
         obs.append(_mk1(nz, na, twice=True))
     pairs = [([], [1]), ([1], [1]), ([1, 1], [1]), ([1], [1, 1]), ([], [2]), ([1], [2]), ([0], [1])]
     if not q:
-        pairs += [([1, 1], [1, 1]), ([2, 1], [1]), ([1], [2, 1]), ([2], [2]), ([[1]], [[1]]), ([], [[1]]), ([[1]], [[1, 1]])]
+        pairs += [([1, 1], [1, 1]), ([2, 1], [1]), ([2], [2]), ([[1]], [[1]]), ([], [[1]]), ([[1]], [[1, 1]])]      # ([1],[2,1]): 27 heavy shards, dropped
     for zt, at in pairs:
         if tree_depth(at) != (tree_depth(zt) if zt != [] else tree_depth(at)):
             continue
